@@ -32,7 +32,7 @@ ASSUMPTIONS = common.BASE_ASSUMPTIONS + [
     "runs in which a foreign exception or step-budget overrun occurs are C08's business and counted as skipped_base_failed",
 ]
 REAL_VS_STUB = common.REAL_VS_STUB
-QUICK_RUNS = 30000
+QUICK_RUNS = 180000
 ENUM_LEN = {"quick": 4, "thorough": 5, "selftest": 2}
 ALPHA = device.FRAME_ALPHABET
 EXPECTED_PROBES = {
